@@ -216,6 +216,7 @@ class Crazyflie():
         if (link is not None):
             link.close()
         self.link = None
+        self._cancel_answer_timers()
         if (self.state == State.INITIALIZED):
             self.connection_failed.call(self.link_uri, errmsg)
         elif (self.state == State.CONNECTED or
@@ -225,6 +226,13 @@ class Crazyflie():
         elif (self.state == State.DISCONNECTED):
             self.disconnected_link_error.call(self.link_uri, errmsg)
         self.state = State.DISCONNECTED
+
+    def _cancel_answer_timers(self):
+        """Forget all pending answers and stop their retry timers"""
+        answer_patterns = self._answer_patterns
+        self._answer_patterns = {}
+        for timer in list(answer_patterns.values()):
+            timer.cancel()
 
     def _check_for_initial_packet_cb(self, data):
         """
@@ -286,7 +294,7 @@ class Crazyflie():
         if (link is not None):
             link.close()
             self.link = None
-        self._answer_patterns = {}
+        self._cancel_answer_timers()
         self.disconnected.call(self.link_uri)
         self.state = State.DISCONNECTED
 
@@ -381,8 +389,11 @@ class Crazyflie():
                             self._answer_patterns[pattern] = new_timer
                             new_timer.start()
                     else:
+                        # The answer has been received, or the link has been
+                        # closed, in the meantime: nothing to resend
                         logger.debug('Resend requested, but no pattern found: %s',
                                      self._answer_patterns)
+                        return
                 link.send_packet(pk)
                 self.packet_sent.call(pk)
         finally:
